@@ -1,0 +1,57 @@
+//go:build verif
+
+package getty
+
+import (
+	"sync"
+
+	getty "github.com/apache/dubbo-getty"
+)
+
+// VerifPendingFutures is the number of entries in the pending-future table.
+func VerifPendingFutures() int {
+	n := 0
+	GetGettyRemotingClient().gettyRemoting.futures.Range(func(_, _ interface{}) bool { n++; return true })
+	return n
+}
+
+// VerifPendingMerged is the number of entries in the merged-message table.
+func VerifPendingMerged() int {
+	n := 0
+	GetGettyRemotingClient().gettyRemoting.mergeMsgMap.Range(func(_, _ interface{}) bool { n++; return true })
+	return n
+}
+
+// VerifResetRemoting forgets pending futures and every registered session.
+func VerifResetRemoting() {
+	c := GetGettyRemotingClient()
+	c.gettyRemoting.futures = &sync.Map{}
+	c.gettyRemoting.mergeMsgMap = &sync.Map{}
+	if sessionManager != nil {
+		sessionManager.allSessions = sync.Map{}
+		sessionManager.serverSessions = sync.Map{}
+		sessionManager.sessionSize = 0
+	}
+}
+
+// VerifSessions lists the sessions currently registered.
+func VerifSessions() []getty.Session {
+	var out []getty.Session
+	if sessionManager == nil {
+		return out
+	}
+	sessionManager.allSessions.Range(func(k, _ interface{}) bool {
+		out = append(out, k.(getty.Session))
+		return true
+	})
+	return out
+}
+
+// VerifSelectSession is the session the client would pick for msg.
+func VerifSelectSession(msg interface{}) getty.Session {
+	return sessionManager.selectSession(msg)
+}
+
+// VerifRegisterSession / VerifReleaseSession drive the registry directly.
+func VerifRegisterSession(s getty.Session) { sessionManager.registerSession(s) }
+func VerifReleaseSession(s getty.Session)  { sessionManager.releaseSession(s) }
